@@ -4,5 +4,3 @@ From Muscle Require Import Gen.Consts Msg.MsgDefs Msg.MsgModel Msg.MsgApi.
 Import ListNotations.
 Local Open Scope N_scope.
 
-Lemma len_app {A} (a b : list A) : len (a ++ b) = len a + len b.
-Proof. induction a as [|x a IH]; cbn [len app]; [reflexivity|]. rewrite IH. lia. Qed.
